@@ -23,7 +23,7 @@ import (
 func init() { register("converge", runConverge) }
 
 type cmsg struct {
-	kind int64 // 1 version, 2 headers, 3 block
+	kind int64 // 1 version, 2 headers, 3 block, 4 inv of a block
 	ids  []int64
 }
 
@@ -57,7 +57,7 @@ func (w *convWorld) parentOf(id int64) int64 {
 	if p, ok := w.parents[id]; ok {
 		return p
 	}
-	return -77
+	return id - 1 // Sync.table_fn's default
 }
 
 func (w *convWorld) header(id int64) *wire.BlockHeader {
@@ -132,8 +132,8 @@ func (w *convWorld) pinfo(chain []int64) []int64 {
 		case 2:
 			p = append(p, 2, int64(len(m.ids)))
 			p = append(p, m.ids...)
-		case 3:
-			p = append(p, 3, m.ids[0])
+		case 3, 4:
+			p = append(p, m.kind, m.ids[0])
 		}
 	}
 	for _, r := range w.reqs {
@@ -213,6 +213,21 @@ func (w *convWorld) nodeBlock(id int64) (int64, []int64) {
 	blk.AddTransaction(blockTx(id, 0))
 	if _, err := w.f.node.VerifHandlers()[wire.CmdBlock].Handle(w.f.ctx, blk); err != nil {
 		return ERR, nil
+	}
+	return OK, nil
+}
+
+// nodeInv: a block inventory through the real inv handler of the trusted connection
+func (w *convWorld) nodeInv(id int64) (int64, []int64) {
+	h := w.bu.HashOf(id)
+	inv := wire.NewMsgInv()
+	inv.AddInvVect(wire.NewInvVect(wire.InvTypeBlock, &h))
+	resp, err := w.f.node.VerifHandlers()[wire.CmdInv].Handle(w.f.ctx, inv)
+	if err != nil {
+		return ERR, nil
+	}
+	if len(resp) > 0 {
+		return OK, []int64{int64(len(resp))} // the model expects no reaction
 	}
 	return OK, nil
 }
@@ -359,6 +374,8 @@ func (w *convWorld) peerSet(c []int64) {
 	w.best = append([]int64{}, c...)
 	if w.sh {
 		w.chanl = append(w.chanl, cmsg{kind: 2, ids: ann})
+	} else {
+		w.chanl = append(w.chanl, cmsg{kind: 4, ids: []int64{c[len(c)-1]}})
 	}
 }
 
@@ -420,6 +437,8 @@ func (w *convWorld) deliver(k int64) (int64, []int64) {
 			}
 		}
 		return w.nodeHeaders(m.ids)
+	case 4:
+		return w.nodeInv(m.ids[0])
 	default:
 		return w.nodeBlock(m.ids[0])
 	}
@@ -444,7 +463,8 @@ func (w *convWorld) checkEnabled() bool {
 		return true
 	}
 	if st.IsReady() {
-		return !st.SentSendHeaders() || !st.AddressesRequested() || !st.NotifiedSync() || !st.WasInSync()
+		return !st.SentSendHeaders() || !st.AddressesRequested() || !st.WasInSync() ||
+			(!st.NotifiedSync() && st.TotalBlockRequestCount() == 0)
 	}
 	return st.HeadersRequested() == nil && st.TotalBlockRequestCount() < 5
 }
@@ -462,32 +482,34 @@ func (w *convWorld) converged() bool {
 	return w.f.node.VerifState().IsReady()
 }
 
-// one settle step; kind as in Peer.v; for a check that notifies: the missing count
-func (w *convWorld) settle1() (int64, int64) {
+// one settle step; kind as in Peer.v; for a check that notifies: the missing count and the number of
+// outstanding block requests at that moment (-1 otherwise)
+func (w *convWorld) settle1() (int64, int64, int64) {
 	st := w.f.node.VerifState()
 	if len(w.chanl) > 0 {
 		w.deliver(0)
-		return 1, -1
+		return 1, -1, -1
 	}
 	if len(w.reqs) > 0 {
 		w.peerAnswer(0)
-		return 2, -1
+		return 2, -1, -1
 	}
 	if st.VerifHeadReady() {
 		w.nodeProcess()
-		return 3, -1
+		return 3, -1, -1
 	}
 	if w.checkEnabled() {
 		_, chain := w.digest()
 		miss := w.missing(chain)
+		outst := int64(st.TotalBlockRequestCount())
 		_, _, insync := w.nodeCheck()
 		if insync {
-			return 4, miss
+			return 4, miss, outst
 		}
-		return 4, -1
+		return 4, -1, -1
 	}
 	if w.converged() {
-		return 0, -1
+		return 0, -1, -1
 	}
 	dt := int64(convBT + 1)
 	w.nodeAdvance(dt)
@@ -495,10 +517,10 @@ func (w *convWorld) settle1() (int64, int64) {
 		st.Reset()
 		st.MarkConnected()
 		w.connReset()
-		return 5, -1
+		return 5, -1, -1
 	}
 	w.nodeAdvance(-dt) // nothing is armed: the clock is left alone
-	return 0, -1
+	return 0, -1, -1
 }
 
 func (w *convWorld) quiescent() bool {
@@ -595,7 +617,7 @@ func runConverge(c *Case) ([]Obs, any) {
 				steps, touts := int64(0), int64(0)
 				var ins []int64
 				for i := int64(0); i < n; i++ {
-					k, miss := w.settle1()
+					k, miss, outst := w.settle1()
 					if k == 0 {
 						break
 					}
@@ -604,10 +626,10 @@ func runConverge(c *Case) ([]Obs, any) {
 						touts++
 					}
 					if miss >= 0 {
-						ins = append(ins, miss)
+						ins = append(ins, miss, outst)
 					}
 				}
-				p := []int64{b2i(w.quiescent()), steps, touts, int64(len(ins))}
+				p := []int64{b2i(w.quiescent()), steps, touts, int64(len(ins) / 2)}
 				return w.frame(OK, append(p, ins...))
 			}
 			panic(harnessErr("unknown op " + op.Name))
